@@ -75,6 +75,8 @@ func MakeGenericType(genericTypeDefinition TypeDefinition, typeArguments []Type,
 // with names "T1", "T2", etc.
 func NormalizeGenericTypeParameters(t Type) Type {
 	var typeParameterMap map[*GenericTypeParameter]*GenericTypeParameter
+	// a definition that is referenced several times is rewritten once
+	rewrittenDefinitions := make(map[TypeDefinition]Node)
 	return Rewrite(t, func(self *Rewriter, node Node) Node {
 		switch node := node.(type) {
 		case *GenericTypeParameter:
@@ -100,7 +102,11 @@ func NormalizeGenericTypeParameters(t Type) Type {
 			return &rewritten
 		case *SimpleType:
 			defaultRewritten := self.DefaultRewrite(node)
-			rewrittenResolved := self.Rewrite(node.ResolvedDefinition)
+			rewrittenResolved, known := rewrittenDefinitions[node.ResolvedDefinition]
+			if !known {
+				rewrittenResolved = self.Rewrite(node.ResolvedDefinition)
+				rewrittenDefinitions[node.ResolvedDefinition] = rewrittenResolved
+			}
 			if defaultRewritten == node && rewrittenResolved == node.ResolvedDefinition {
 				return node
 			}
@@ -159,37 +165,11 @@ func TypeDefinitionsEqual(a, b TypeDefinition) bool {
 	case *PrimitiveDefinition, *GenericTypeParameter:
 		return true
 	case *RecordDefinition:
-		tb, ok := b.(*RecordDefinition)
-		if !ok {
-			return false
-		}
-
-		if len(ta.Fields) != len(tb.Fields) {
-			return false
-		}
-
-		if len(ta.ComputedFields) != len(tb.ComputedFields) {
-			return false
-		}
-
-		for i, fa := range ta.Fields {
-			fb := tb.Fields[i]
-			if fa.Name != fb.Name || !TypesEqual(fa.Type, fb.Type) {
-				return false
-			}
-		}
-
-		// Computed fields are not part of a record's identity as a type. Only their names are
-		// compared: one side may be a copy of the definition taken before its expressions were
-		// resolved (e.g. the type named by a switch pattern), and resolved and unresolved
-		// expression trees are never equal.
-		for i, fa := range ta.ComputedFields {
-			if fa.Name != tb.ComputedFields[i].Name {
-				return false
-			}
-		}
-
-		return true
+		// Within one model a record type is identified by its namespace, name and type arguments,
+		// which were compared above. Comparing the fields as well is redundant and, because it
+		// recurses into the records they refer to, exponential in the nesting depth.
+		_, ok := b.(*RecordDefinition)
+		return ok
 	case *ProtocolDefinition:
 		tb, ok := b.(*ProtocolDefinition)
 		if !ok {
@@ -847,7 +827,12 @@ func TypeHasNullOption(node Type) bool {
 // Returns true if the type is generic (not concrete)
 func TypeContainsGenericTypeParameter(node Type) bool {
 	contains := false
+	// each referenced definition is examined once
+	visitedDefinitions := make(map[TypeDefinition]bool)
 	Visit(node, func(self Visitor, node Node) {
+		if contains {
+			return
+		}
 		switch node := node.(type) {
 		case *GenericTypeParameter:
 			contains = true
@@ -855,7 +840,10 @@ func TypeContainsGenericTypeParameter(node Type) bool {
 		case *NamedType:
 			self.Visit(node.Type)
 		case *SimpleType:
-			self.Visit(node.ResolvedDefinition)
+			if node.ResolvedDefinition != nil && !visitedDefinitions[node.ResolvedDefinition] {
+				visitedDefinitions[node.ResolvedDefinition] = true
+				self.Visit(node.ResolvedDefinition)
+			}
 		default:
 			self.VisitChildren(node)
 		}
